@@ -13,7 +13,7 @@ import json, os, random, re, subprocess, sys, tempfile
 from concurrent.futures import ThreadPoolExecutor
 import threading, queue
 
-ENV = dict(os.environ, GOFLAGS="-mod=mod", GOPROXY="off", GOSUMDB="off", GOTOOLCHAIN="local")
+ENV = dict(os.environ, GOFLAGS="-mod=mod -trimpath", GOPROXY="off", GOSUMDB="off", GOTOOLCHAIN="local")
 ENV.pop("GOWORK", None)
 FILES = ["boolean.go", "custom.go", "numbers.go", "pointers.go", "preprocess.go", "slices.go", "string.go", "struct.go",
          "struct_helpers.go", "time.go", "utils.go", "utilsOptions.go", "zogSchema.go",
@@ -226,3 +226,4 @@ def main():
 
 if __name__ == "__main__":
     main()
+    subprocess.run("/verif/tools/trimcache.sh", shell=True)
